@@ -1,5 +1,6 @@
 import Stbem.Props.QuadTie
 import Stbem.Props.C14
+import Stbem.Props.C14Integral
 import Stbem.Lemmas.NormsGenBasic
 
 /-!
@@ -245,6 +246,18 @@ theorem gen_h12_exact_partial (cs : List Rat) (a b : Rat) (hab : b - a ≠ 0) (d
   exact ⟨v, fun g14 gl gx N hl hN hmx hml hx hl' => by
     rw [gen_seminorm_h_1_2_flat_eq g14 gl gx hl, hv gx gl N hN hmx hml hx hl']⟩
 
+/-- **H^{1/2}, exactness on polynomials, for the generated code** (`semi12_eq_integral_poly` of `Props/C14Integral.lean`): the
+generated flat `seminorm_h_1_2` of an object whose `x`-weighted and Legendre rules have the moments `1/(k+2)`, `1/(k+1)` up to
+order `N` (equally many nodes, none at the singular set) returns, for every polynomial with `2 deg f ≤ N + 2` and every interval
+`a ≠ b`, the Slobodeckij double integral `∫_a^b ∫_a^b ((f x - f y)/(x - y))² dy dx` -/
+theorem gen_h12_eq_integral_poly (cs : List Rat) (a b : Rat) (hab : b - a ≠ 0) (deg : Nat) (hcs : cs.length ≤ deg + 1)
+    (N : Nat) (hN : 2 * deg ≤ N + 2) (hmx : ∀ k, k ≤ N → mom gx k = 1 / ((k : Rat) + 2)) (hml : Exact1 gl N)
+    (hx : ∀ n ∈ gx, n.x ≠ 0) (hl : ∀ n ∈ gl, n.x ≠ 1) :
+    (((sloOf g14 gl gx).seminorm_h_1_2_flat (evalPoly cs) a b : Rat) : ℝ) =
+      ∫ x in (a : ℝ)..(b : ℝ), ∫ y in (a : ℝ)..(b : ℝ), ((evalPolyR cs x - evalPolyR cs y) / (x - y)) ^ 2 := by
+  rw [gen_seminorm_h_1_2_flat_eq g14 gl gx hlen]
+  exact C14.semi12_eq_integral_poly cs a b hab deg hcs gx gl N hN hmx hml hx hl
+
 /-! ### curve-aware variant -/
 
 theorem gen_h12g_nonneg (γ : Gamma) (f : Rat → Rat × Rat → Rat) (a b : Rat) (hx : ∀ n ∈ gx, 0 ≤ n.w)
@@ -379,6 +392,12 @@ example : (sloOf C14.gS C14.gL C14.gX).seminorm_h_1_4 (fun _ => 3) (evalPoly [5,
 example : (sloOf C14.gS C14.gL C14.gX).semi_1_2_pw.integrate (fun s t => s ^ 1 * t ^ 1) 0 1 0 1 =
     .ok (1 / ((((1 : Nat) : Rat) + 1) * (((1 : Nat) : Rat) + 1))) :=
   gen_pw_rule_exact C14.gS C14.gL C14.gX C14.gX_moments C14.gL_exact 1 1 (by norm_num)
+/-- `gen_h12_eq_integral_poly` on the three-node rules: `f(x) = 3 - x + 2x²` on `[1, 3]` -/
+example : (((sloOf C14.gS C14.gL C14.gX).seminorm_h_1_2_flat (evalPoly [3, -1, 2]) 1 3 : Rat) : ℝ) =
+    ∫ x in ((1 : Rat) : ℝ)..((3 : Rat) : ℝ), ∫ y in ((1 : Rat) : ℝ)..((3 : Rat) : ℝ),
+      ((evalPolyR [3, -1, 2] x - evalPolyR [3, -1, 2] y) / (x - y)) ^ 2 :=
+  gen_h12_eq_integral_poly C14.gS C14.gL C14.gX rfl [3, -1, 2] 1 3 (by norm_num) 2 (by simp) 2 (by norm_num)
+    C14.gX_moments C14.gL_exact (by decide +kernel) (by decide +kernel)
 example : WF1 (ofRule1 C14.gS) := wf_ofRule1 _
 
 end Stbem.NormsTie
